@@ -31,6 +31,9 @@ def _funnel(rng):
     sp.gamma = 1.0
     acts = rng.choice([("go", "alt"), ("go", "alt", "wait")])
     ks, kt = rng.randint(1, 3), rng.randint(1, 3)
+    plain = rng.random() < 0.5        # free moves between pure self-loop sinks of different cost: the bias ties across sinks, only the gain tells them apart
+    if plain:
+        ks = rng.randint(2, 3)
     sinks = ["sink%d" % i for i in range(ks)]
     trans = ["t%d" % i for i in range(kt)]
     sp.states = trans + sinks
@@ -38,7 +41,7 @@ def _funnel(rng):
     for s_ in sinks:
         sp.acts[s_] = tuple(acts)
         for a in acts:
-            if rng.random() < 0.7:
+            if plain or rng.random() < 0.7:
                 lst = [(s_, 1.0)]
             else:
                 other = rng.choice(sinks)
@@ -49,17 +52,54 @@ def _funnel(rng):
                 sp.R[(s_, a, t)] = -scale * rng.choice([1.0, 1.5, 2.0, 3.0])
     for i, s_ in enumerate(trans):
         sp.acts[s_] = tuple(rng.sample(acts, rng.randint(1, len(acts) - 1)))       # a strict subset
+        if plain:
+            sp.acts[s_] = tuple(rng.sample(acts, rng.randint(2, len(acts))))       # (a real choice between sinks)
         for a in sp.acts[s_]:
             down = trans[i + 1:] + sinks
             succ = rng.sample(down, min(len(down), rng.choice([1, 2])))
             pr = G.rand_probs(rng, len(succ))
             sp.P[(s_, a)] = list(zip(succ, pr))
             sp.kind[(s_, a)] = "dict"
+            if plain:
+                succ = [rng.choice(sinks)] if rng.random() < 0.7 else succ[:1]
+                sp.P[(s_, a)] = [(succ[0], 1.0)]
             for t in succ:
-                sp.R[(s_, a, t)] = -scale * rng.choice([0.0, 1.0, 1.0])
+                sp.R[(s_, a, t)] = 0.0 if plain else -scale * rng.choice([0.0, 1.0, 1.0])
     sp.init = [(trans[0], 1.0)]
     sp.meta.update(abs_kinds=[], label_kind="str", abs_type="bool", num_type="float", actions_type="tuple",
                    fresh_labels=False, reward_scale=scale)
+    return sp
+
+
+def _corridor(rng):
+    """a LONG deterministic corridor or grid (26-48 cells), every step costs 1, the far end is absorbing and free: optimal gain 0
+    everywhere when undiscounted - evaluation systems with as many equations as there are cells"""
+    sp = G.Spec()
+    sp.family = "corridor"
+    sp.gamma = rng.choice([1.0, 1.0, 0.95])
+    w, h = rng.choice([(26, 1), (28, 1), (30, 1), (34, 1), (6, 5), (6, 5), (8, 4), (8, 4), (16, 2), (16, 2), (7, 6), (5, 6), (4, 8)])
+    cells = [(x, y) for y in range(h) for x in range(w)]
+    name = {c: "c%d_%d" % c for c in cells}
+    goal = (w - 1, h - 1)
+    moves = {"e": (1, 0), "w": (-1, 0)} if h == 1 else {"e": (1, 0), "w": (-1, 0), "n": (0, 1), "s": (0, -1)}
+    order_ = list(moves)
+    rng.shuffle(order_)                      # (the first listed action is the planner's starting policy)
+    moves = {a: moves[a] for a in order_}
+    sp.states = [name[c] for c in cells]
+    for c in cells:
+        s_ = name[c]
+        sp.acts[s_] = tuple(moves)
+        for a, (dx, dy) in moves.items():
+            t = (c[0] + dx, c[1] + dy)
+            t = t if t in name else c
+            if c == goal:
+                t = c
+            sp.P[(s_, a)] = [(name[t], 1.0)]
+            sp.kind[(s_, a)] = "dict"
+            sp.R[(s_, a, name[t])] = 0.0 if c == goal else -1.0
+    sp.init = [(name[(0, 0)], 1.0)]
+    sp.meta.update(abs_kinds=[], label_kind="str", abs_type="bool", num_type="float", actions_type="tuple",
+                   fresh_labels=False, reward_scale=1.0)
     return sp
 
 
@@ -74,6 +114,8 @@ def run_case(case, rng):
                        reward_scale=rng.choice([1.0] * 5 + [1000.0]))      # gains / values in the thousands too
     if rng.random() < 0.1:
         fam, sp = "funnel", _funnel(rng)
+    if rng.random() < 0.05:
+        fam, sp = "corridor", _corridor(rng)
     rep = rng.choice(Bd.REPRS)
     if rng.random() < 0.12:
         rep = "annotated"       # equal-but-distinct state objects whose step note the reward function reads
@@ -104,6 +146,8 @@ def run_case(case, rng):
     if gamma <= 0.95 and rng.random() < 0.3:
         cap = 100000      # the documented default (then usually left out); discounted problems only - an undiscounted run that
         #                   cycles takes a minute to exhaust it
+    if fam == "corridor":
+        cap = rng.choice([50, 200])       # (a sibling with paid steps cycles until the cap: keep that short at this size)
     arr = Rf.Arr(sp, states=S, actions=A)
     pinned = arr.absorbing.copy()
     case.family = fam
